@@ -11,7 +11,16 @@ hashes = set(by_subj.values())
 remap, gone = {}, []
 def fix_line(l):
     m = re.match(r"(fixed: property=\S+ )([0-9a-f]{7,10})( )(.*)", l, re.S)
-    if not m: return l
+    if not m:
+        # no hash in the line ("fixed: property=Cxx fix: <subject> ..."): insert the hash of the commit with that subject
+        m2 = re.match(r"(fixed: property=\S+ )(fix: .*)", l, re.S)
+        if m2:
+            rest = m2.group(2)
+            cand = [h for s_, h in by_subj.items() if rest.startswith(s_)]
+            if len(cand) == 1:
+                return m2.group(1) + cand[0] + " " + rest
+            gone.append(("-", rest[:90]))
+        return l
     old, rest = m.group(2), m.group(4)
     if old[:9] in hashes: return l
     cand = [h for s, h in by_subj.items() if rest.startswith(s) or rest.startswith(s[5:].strip())]
